@@ -297,6 +297,19 @@ pub fn families(thorough: bool) -> Vec<Hello> {
             }
         }
     }
+    // repeated values: a list is a list - a suite, a signature algorithm or a version offered twice is counted, sorted and
+    // hashed twice (every arrangement of each multiset)
+    for cs in [vec![0x1301u16, 0x1302, 0x1301], vec![0xc02f, 0xc02f], vec![0x1301, 0x1301, 0x1301, 0x1302], vec![0x0a0a, 0x1301, 0x0a0a, 0x1301], vec![0x1302, 0x1301, 0x1302, 0x1301, 0x1303]] {
+        for order in perms(&cs) {
+            for sa in [vec![], vec![0x0403u16, 0x0403, 0x0804], vec![0x0804, 0x0403, 0x0804]] {
+                let mut exts = vec![Ext::Sni(s("dup.example")), Ext::SupVer(vec![0x0304, 0x0304, 0x0303]), Ext::Alpn(vec![s("h2"), s("h2")])];
+                if !sa.is_empty() {
+                    exts.push(Ext::SigAlgs(sa.clone()));
+                }
+                v.push(Hello { ciphers: order.clone(), exts, ..Hello::default() });
+            }
+        }
+    }
     // F2: extension lists: every permutation of every subset up to a size, GREASE extensions at every position
     let pool = ext_pool();
     let mut ext_lists: Vec<Vec<Ext>> = vec![];
@@ -405,7 +418,7 @@ pub fn run(thorough: bool) -> Outcome {
     });
     Outcome {
         report: pre.merge(report),
-        rule: "ClientHellos generated from descriptions: legacy version x supported_versions x every permutation of every cipher subset (with GREASE) ; every permutation of every extension subset (with GREASE extensions) x session-id/compression/record-version ; sigalg orders x ALPN x SNI; distinct = distinct JA4_r / JA4_ro strings produced by the implementation".into(),
+        rule: "ClientHellos generated from descriptions: legacy version x supported_versions x every permutation of every cipher subset (with GREASE) ; every permutation of every extension subset (with GREASE extensions) x session-id/compression/record-version ; sigalg orders x ALPN x SNI; lists with repeated values (every arrangement of 5 cipher multisets x repeated signature algorithms / versions / ALPN entries); distinct = distinct JA4_r / JA4_ro strings produced by the implementation".into(),
         exhaustive: true,
         bounds: json!({"parse_route_hellos": n1, "packet_route_hellos": rf.len(), "max_cipher_subset": if thorough {6} else {5}, "max_extension_subset": if thorough {5} else {4}}),
     }
